@@ -116,25 +116,39 @@ def main():
     kwargs = {k: dec(v) for k, v in req["kwargs"].items()}
     for (f, c, at, v) in req.get("class_state", []):
         setattr(load(f, c), at, dec(v))
-    parts = req["func"].split(".")
-    mod = importlib.import_module(req["file"][:-3].replace("/", "."))
-    fn = getattr(mod, parts[0])
-    for p in parts[1:]:
-        r = raw(fn, p) if isinstance(fn, type) else getattr(fn, p)
-        if isinstance(r, (staticmethod, classmethod)):
-            r = getattr(fn, p)
-        fn = r
+    def resolve(file, func):
+        parts = func.split(".")
+        mod = importlib.import_module(file[:-3].replace("/", "."))
+        fn = getattr(mod, parts[0])
+        for p in parts[1:]:
+            r = raw(fn, p) if isinstance(fn, type) else getattr(fn, p)
+            if isinstance(r, (staticmethod, classmethod)):
+                r = getattr(fn, p)
+            fn = r
+        return fn
+
     out = {}
     buf = io.StringIO()
+    calls = None
+    if "calls" in req:
+        calls = [(resolve(c["file"], c["func"]), [dec(x) for x in c["args"]], {k: dec(v) for k, v in c["kwargs"].items()})
+                 for c in req["calls"]]
+    else:
+        fn = resolve(req["file"], req["func"])
     try:
         with contextlib.redirect_stdout(buf):
-            res = fn(*args, **kwargs)
+            if calls is not None:
+                res = [f(*a_, **k_) for (f, a_, k_) in calls]
+            else:
+                res = fn(*args, **kwargs)
         out["outcome"] = "return"
         out["result"] = enc(res)
     except BaseException as e:  # the exception class is part of the observable outcome
         out["outcome"] = "raise"
         out["exc"] = type(e).__name__
         out["msg"] = str(e)[:500]
+    if calls is not None:
+        out["calls_post"] = [[enc(x) for x in a_] for (f, a_, k_) in calls]
     out["args"] = [enc(x) for x in args]
     out["kwargs"] = {k: enc(v) for k, v in kwargs.items()}
     sys.stdout.write("\n" + json.dumps(out) + "\n")
